@@ -231,6 +231,7 @@ func (c *Ctx) buildWriter(p primInst, n, P int, fixedLen int, pad *Term, left *T
 		var vs []*Term
 		for i := 0; i < n; i++ {
 			v := e.freshVar("obj", 16)
+			s.pc = append(s.pc, Not(Eq(v, C(16, 0xFFFF)))) // (the value at which the test element refuses to encode)
 			vs = append(vs, v)
 			id := s.newObj(&Obj{Kind: kCell, Val: &StructV{F: []Value{v}}})
 			o.E = append(o.E, &Ptr{Obj: id})
